@@ -135,6 +135,13 @@ def handleIdx (s : Store) : List Sexp → Option (Store × String)
     match ← s.get n with
     | .cfull c => some (s, match c.getCloned k with | none => "none" | some v => s!"some {v}")
     | _ => none
+  | [.atom "callin", .atom n, _threads] => do
+    -- `c_iter_all` run inside a rayon pool of the given size: the pool is irrelevant for the model
+    match ← s.get n with
+    | .crel c => some (s, if c.frozen then showEntries c.entries else "panic")
+    | .cfull c => some (s, if c.frozen then showEntries c.entries else "panic")
+    | .clat c => some (s, if c.frozen then showEntries c.entries else "panic")
+    | _ => none
   | [.atom op, .atom n] =>
     if op == "freeze" || op == "unfreeze" then do
       let fr := op == "freeze"
